@@ -1,6 +1,7 @@
 import SamVerif.Lemmas.StdMapOps
 import SamVerif.Lemmas.StdSet
 import SamVerif.Model.StdList
+import SamVerif.Model.StdAux
 /-!
 # C18 — Standard-library collections behave like finite maps, sets and sequences
 
@@ -36,7 +37,7 @@ theorem length_refines (l : SList T) : length l = ((toList l).length : Int) := b
     intro l
     induction l with
     | nil => intro a; simp [fold, toList]
-    | cons v rest ih => intro a; simp [fold, toList, ih]; omega
+    | cons v rest ih => intro a; simp [fold, toList, ih]; oo
   simp [length, h]
 
 theorem filter_refines (f : T → Bool) (l : SList T) : toList (filter f l) = (toList l).filter f := by
@@ -128,10 +129,10 @@ end SamVerif.StdList
 /-! ## Finite maps -/
 namespace SamVerif.StdMap
 set_option linter.unusedSectionVars false
-variable {K V : Type} [DecidableEq K] [DecidableEq V]
+variable {K V : Type} [DecidableEq K] [DecidableEq V] [LE K] [LT K] [Std.IsLinearOrder K] [Std.LawfulOrderLT K] [DecidableLT K]
 
 /-- a tree satisfies the representation invariant -/
-def Inv (rank : K → Int) (t : Tree K V) : Prop := Bal t ∧ Ordered rank t
+def Inv (t : Tree K V) : Prop := Bal t ∧ Ordered t
 
 /-- `size` is the number of bindings. -/
 theorem map_size_refines (t : Tree K V) : size t = ((abs t).length : Int) := size_refines t
@@ -139,8 +140,8 @@ theorem map_size_refines (t : Tree K V) : size t = ((abs t).length : Int) := siz
 theorem map_entries_refines (t : Tree K V) : entries t = abs t := entries_refines t
 theorem map_keys_refines (t : Tree K V) : keys t = (abs t).map Prod.fst := keys_refines t
 /-- the enumeration is strictly ascending in the key order -/
-theorem map_entries_sorted (rank : K → Int) (t : Tree K V) (h : Inv rank t) :
-    (entries t).Pairwise (fun a b => rank a.1 < rank b.1) := by
+theorem map_entries_sorted (t : Tree K V) (h : Inv t) :
+    (entries t).Pairwise (fun a b => a.1 < b.1) := by
   rw [entries_refines]; exact h.2
 /-- `fold` is a left fold over the ascending enumeration. -/
 theorem map_fold_refines {A : Type} (f : A → K → V → A) (t : Tree K V) (a : A) :
@@ -163,20 +164,20 @@ theorem balanced_preserves (l r : Tree K V) (k : K) (v : V) (hl : Bal l) (hr : B
 /-- **`insert` refines finite-map update**: on every invariant-satisfying tree, for every total
 order `cmp`, `insert` does not panic, re-establishes the invariant, and the resulting finite map
 is `m[k ↦ v]`. -/
-theorem insert_refines {cmp : K → K → Int} {rank : K → Int} (hc : Lawful cmp rank) (t : Tree K V)
-    (k : K) (v : V) (hi : Inv rank t) :
-    ∃ t', insert cmp t k v = some t' ∧ Inv rank t' ∧
+theorem insert_refines {cmp : K → K → Int} (hc : Lawful cmp) (t : Tree K V)
+    (k : K) (v : V) (hi : Inv t) :
+    ∃ t', insert cmp t k v = some t' ∧ Inv t' ∧
       ∀ p, p ∈ abs t' ↔ (p = (k, v) ∨ (p ∈ abs t ∧ p.1 ≠ k)) := by
   obtain ⟨t', e, b, o, m, _⟩ := insert_spec hc t k v hi.1 hi.2
   exact ⟨t', e, ⟨b, o⟩, m⟩
 
 /-- **`get` refines finite-map lookup.** -/
-theorem get_refines {cmp : K → K → Int} {rank : K → Int} (hc : Lawful cmp rank) (t : Tree K V)
-    (ho : Ordered rank t) (q : K) (w : V) : get cmp t q = some w ↔ (q, w) ∈ abs t := get_mem hc t ho q w
+theorem get_refines {cmp : K → K → Int} (hc : Lawful cmp) (t : Tree K V)
+    (ho : Ordered t) (q : K) (w : V) : get cmp t q = some w ↔ (q, w) ∈ abs t := get_mem hc t ho q w
 
 /-- lookup after insert (finite-map law) -/
-theorem get_insert {cmp : K → K → Int} {rank : K → Int} (hc : Lawful cmp rank) (t t' : Tree K V)
-    (k : K) (v : V) (hi : Inv rank t) (e : insert cmp t k v = some t') (q : K) :
+theorem get_insert {cmp : K → K → Int} (hc : Lawful cmp) (t t' : Tree K V)
+    (k : K) (v : V) (hi : Inv t) (e : insert cmp t k v = some t') (q : K) :
     get cmp t' q = if q = k then some v else get cmp t q := by
   obtain ⟨t'', e', hi', m⟩ := insert_refines hc t k v hi
   rw [e] at e'; cases e'
@@ -203,9 +204,9 @@ def specIns (m : K → Option V) : List (K × V) → K → Option V
 /-- **Histories**: every finite sequence of inserts, of any length, from any invariant-satisfying
 tree (in particular `empty`) never panics, keeps the invariant, and every lookup afterwards equals
 the lookup in the finite map obtained by the same sequence of updates. -/
-theorem insert_history_refines {cmp : K → K → Int} {rank : K → Int} (hc : Lawful cmp rank)
-    (ops : List (K × V)) (t : Tree K V) (hi : Inv rank t) :
-    ∃ t', runIns cmp t ops = some t' ∧ Inv rank t' ∧ ∀ q, get cmp t' q = specIns (get cmp t) ops q := by
+theorem insert_history_refines {cmp : K → K → Int} (hc : Lawful cmp)
+    (ops : List (K × V)) (t : Tree K V) (hi : Inv t) :
+    ∃ t', runIns cmp t ops = some t' ∧ Inv t' ∧ ∀ q, get cmp t' q = specIns (get cmp t) ops q := by
   induction ops generalizing t with
   | nil => exact ⟨t, rfl, hi, fun _ => rfl⟩
   | cons op ops ih =>
@@ -220,14 +221,14 @@ theorem insert_history_refines {cmp : K → K → Int} {rank : K → Int} (hc : 
     funext x
     exact get_insert hc t t1 k v hi e x
 
-theorem inv_empty (rank : K → Int) : Inv rank (Tree.empty : Tree K V) := by
+theorem inv_empty : Inv (Tree.empty : Tree K V) := by
   simp [Inv, Bal, Ordered, abs]
 
 /-- **`update`**: never panics, keeps the invariant, and is the finite-map update
 `m[k ↦ g (m k)]` (binding removed when `g` answers `None`). -/
-theorem update_refines {cmp : K → K → Int} {rank : K → Int} (hc : Lawful cmp rank)
-    (g : Option V → Option V) (t : Tree K V) (k : K) (hi : Inv rank t) :
-    ∃ t', update cmp g t k = some t' ∧ Inv rank t' ∧
+theorem update_refines {cmp : K → K → Int} (hc : Lawful cmp)
+    (g : Option V → Option V) (t : Tree K V) (k : K) (hi : Inv t) :
+    ∃ t', update cmp g t k = some t' ∧ Inv t' ∧
       ∀ q, get cmp t' q = if q = k then g (get cmp t k) else get cmp t q := by
   obtain ⟨t', e, b, o, gg⟩ := get_update hc g t k hi.1 hi.2
   exact ⟨t', e, ⟨b, o⟩, gg⟩
@@ -235,18 +236,18 @@ theorem update_refines {cmp : K → K → Int} {rank : K → Int} (hc : Lawful c
 /-- **`customizedUnion`, total and fuel-free in effect**: any fuel above the sum of the sizes
 suffices (the fuelled model never runs out), no panic, invariant kept, and lookups are the
 pointwise `unionWith f`. -/
-theorem customizedUnion_refines {cmp : K → K → Int} {rank : K → Int} (hc : Lawful cmp rank)
-    (f : K → V → V → Option V) (fuel : Nat) (a b : Tree K V) (ha : Inv rank a) (hb : Inv rank b)
+theorem customizedUnion_refines {cmp : K → K → Int} (hc : Lawful cmp)
+    (f : K → V → V → Option V) (fuel : Nat) (a b : Tree K V) (ha : Inv a) (hb : Inv b)
     (hf : (abs a).length + (abs b).length < fuel) :
-    ∃ t, customizedUnion cmp f fuel a b = some (some t) ∧ Inv rank t ∧
+    ∃ t, customizedUnion cmp f fuel a b = some (some t) ∧ Inv t ∧
       ∀ q, get cmp t q = unionWith f q (get cmp a q) (get cmp b q) := by
   obtain ⟨t, e, b', o, g⟩ := customizedUnion_spec hc f fuel a b ha.1 ha.2 hb.1 hb.2 hf
   exact ⟨t, e, ⟨b', o⟩, g⟩
 
 /-- **`union`** keeps the receiver's value on common keys. -/
-theorem union_refines {cmp : K → K → Int} {rank : K → Int} (hc : Lawful cmp rank) (fuel : Nat)
-    (a b : Tree K V) (ha : Inv rank a) (hb : Inv rank b) (hf : (abs a).length + (abs b).length < fuel) :
-    ∃ t, union cmp fuel a b = some (some t) ∧ Inv rank t ∧
+theorem union_refines {cmp : K → K → Int} (hc : Lawful cmp) (fuel : Nat)
+    (a b : Tree K V) (ha : Inv a) (hb : Inv b) (hf : (abs a).length + (abs b).length < fuel) :
+    ∃ t, union cmp fuel a b = some (some t) ∧ Inv t ∧
       ∀ q, get cmp t q = match get cmp a q with
         | some x => some x
         | none => get cmp b q := by
@@ -256,10 +257,10 @@ theorem union_refines {cmp : K → K → Int} {rank : K → Int} (hc : Lawful cm
   cases get cmp a q <;> cases get cmp b q <;> rfl
 
 /-- **`merge`, total**: `f` decides every key bound on at least one side. -/
-theorem merge_refines {cmp : K → K → Int} {rank : K → Int} (hc : Lawful cmp rank)
-    (f : K → Option V → Option V → Option V) (fuel : Nat) (a b : Tree K V) (ha : Inv rank a)
-    (hb : Inv rank b) (hf : (abs a).length + (abs b).length < fuel) :
-    ∃ t, merge cmp f fuel a b = some (some t) ∧ Inv rank t ∧
+theorem merge_refines {cmp : K → K → Int} (hc : Lawful cmp)
+    (f : K → Option V → Option V → Option V) (fuel : Nat) (a b : Tree K V) (ha : Inv a)
+    (hb : Inv b) (hf : (abs a).length + (abs b).length < fuel) :
+    ∃ t, merge cmp f fuel a b = some (some t) ∧ Inv t ∧
       ∀ q, get cmp t q = mergeWith f q (get cmp a q) (get cmp b q) := by
   obtain ⟨t, e, b', o, g⟩ := merge_spec hc f fuel a b ha.1 ha.2 hb.1 hb.2 hf
   exact ⟨t, e, ⟨b', o⟩, g⟩
@@ -277,7 +278,7 @@ theorem map_equal_refines (cmp : K → K → Int) (f : V → V → Bool) (a b : 
     equal cmp f a b = eqList cmp f (abs a) (abs b) := equal_refines cmp f a b
 
 /-- with a lawful compare and a faithful value test, `equal` decides equality of the finite maps -/
-theorem map_equal_iff {cmp : K → K → Int} {rank : K → Int} (hc : Lawful cmp rank) (f : V → V → Bool)
+theorem map_equal_iff {cmp : K → K → Int} (hc : Lawful cmp) (f : V → V → Bool)
     (hf : ∀ x y, f x y = true ↔ x = y) (a b : Tree K V) : equal cmp f a b = true ↔ abs a = abs b := by
   rw [equal_refines]; exact eqList_iff hc f hf _ _
 
@@ -290,18 +291,18 @@ and `merge` (the last three with internally computed fuel, i.e. fuel-free), over
 registers that start in states representing finite maps `ms i` (e.g. all `empty`), never panics,
 keeps the representation invariant in every register, and ends in states representing exactly the
 finite maps obtained by running the same history on mathematical finite maps `K → Option V`. -/
-theorem ops_refine {cmp : K → K → Int} {rank : K → Int} (hc : Lawful cmp rank)
+theorem ops_refine {cmp : K → K → Int} (hc : Lawful cmp)
     (ops : List (MOp K V)) (regs : Nat → Tree K V) (ms : Nat → K → Option V)
-    (h : ∀ i, Rel rank (regs i) (ms i)) :
-    ∃ regs', runOps cmp regs ops = some regs' ∧ ∀ i, Rel rank (regs' i) (specOps rank ms ops i) :=
+    (h : ∀ i, Rel (regs i) (ms i)) :
+    ∃ regs', runOps cmp regs ops = some regs' ∧ ∀ i, Rel (regs' i) (specOps ms ops i) :=
   ops_refine_lemma hc ops regs ms h
 
 /-- lookups after any such history from all-empty registers equal the specification's lookups -/
-theorem ops_refine_get {cmp : K → K → Int} {rank : K → Int} (hc : Lawful cmp rank)
+theorem ops_refine_get {cmp : K → K → Int} (hc : Lawful cmp)
     (ops : List (MOp K V)) :
     ∃ regs', runOps cmp (fun _ => (Tree.empty : Tree K V)) ops = some regs' ∧
-      ∀ i q, get cmp (regs' i) q = specOps rank (fun _ _ => none) ops i q := by
-  obtain ⟨regs', e, h⟩ := ops_refine hc ops (fun _ => Tree.empty) (fun _ _ => none) (fun _ => rel_empty rank)
+      ∀ i q, get cmp (regs' i) q = specOps (fun _ _ => none) ops i q := by
+  obtain ⟨regs', e, h⟩ := ops_refine hc ops (fun _ => Tree.empty) (fun _ _ => none) (fun _ => rel_empty)
   refine ⟨regs', e, fun i q => ?_⟩
   obtain ⟨_, o, g⟩ := h i
   apply Option.ext
@@ -316,17 +317,122 @@ def Window (lo : Int) := { x : Int // lo ≤ x ∧ x < lo + 2147483648 }
 instance (lo : Int) : DecidableEq (Window lo) := fun a b =>
   if h : a.1 = b.1 then isTrue (Subtype.ext h) else isFalse (fun e => h (by rw [e]))
 
+instance (lo : Int) : LE (Window lo) := ⟨fun a b => a.1 ≤ b.1⟩
+instance (lo : Int) : LT (Window lo) := ⟨fun a b => a.1 < b.1⟩
+instance (lo : Int) : DecidableLT (Window lo) := fun a b => inferInstanceAs (Decidable (a.1 < b.1))
+instance (lo : Int) : Std.IsLinearOrder (Window lo) where
+  le_refl a := Int.le_refl a.1
+  le_trans a b c h1 h2 := Int.le_trans h1 h2
+  le_antisymm a b h1 h2 := Subtype.ext (Int.le_antisymm h1 h2)
+  le_total a b := Int.le_total a.1 b.1
+instance (lo : Int) : Std.LawfulOrderLT (Window lo) where
+  lt_iff a b := by show a.1 < b.1 ↔ a.1 ≤ b.1 ∧ ¬ b.1 ≤ a.1; omega
+
 /-- **`boxed_compare_range`**: `this.value - other.value` in 32 bits is a lawful total order on
 every key set of diameter < 2³¹. -/
 theorem boxedCompare_lawful (lo : Int) :
-    Lawful (fun (a b : Window lo) => boxedCompare a.1 b.1) (fun a => a.1) := by
-  refine ⟨?_, ?_, ?_⟩ <;> intro a b <;> obtain ⟨a, ha⟩ := a <;> obtain ⟨b, hb⟩ := b <;>
-    simp only [boxedCompare, wrap32]
-  · omega
-  · constructor
+    Lawful (fun (a b : Window lo) => boxedCompare a.1 b.1) := by
+  refine ⟨?_, ?_, ?_⟩ <;> intro a b <;> obtain ⟨a, ha⟩ := a <;> obtain ⟨b, hb⟩ := b
+  · show wrap32 (a - b) < 0 ↔ a < b
+    simp only [wrap32]; omega
+  · simp only [boxedCompare, wrap32]
+    constructor
     · intro h; apply Subtype.ext; simp only; omega
     · intro h; have : a = b := congrArg Subtype.val h; omega
-  · omega
+  · show wrap32 (a - b) > 0 ↔ b < a
+    simp only [wrap32]; omega
+
+/-! ### Every lawful `compare` method qualifies
+
+The theorems are stated for a key type with a linear order `<` that `cmp` realises (`Lawful`).
+That is no restriction: a compare that is zero exactly on equal keys, antisymmetric and transitive
+*defines* such an order (no embedding into the integers is needed). -/
+
+/-- the laws of a `compare : K → K → Int` method, stated on `cmp` alone -/
+structure CmpLaws {K : Type} (cmp : K → K → Int) : Prop where
+  eq : ∀ a b, cmp a b = 0 ↔ a = b
+  antisymm : ∀ a b, cmp a b > 0 ↔ cmp b a < 0
+  trans : ∀ a b c, cmp a b < 0 → cmp b c < 0 → cmp a c < 0
+
+/-- the order a compare defines -/
+def leOfCmp {K : Type} (cmp : K → K → Int) : LE K := ⟨fun a b => cmp a b ≤ 0⟩
+def ltOfCmp {K : Type} (cmp : K → K → Int) : LT K := ⟨fun a b => cmp a b < 0⟩
+
+theorem CmpLaws.linear {K : Type} {cmp : K → K → Int} (h : CmpLaws cmp) :
+    @Std.IsLinearOrder K (leOfCmp cmp) := by
+  letI := leOfCmp cmp
+  have refl : ∀ a : K, cmp a a = 0 := fun a => (h.eq a a).2 rfl
+  refine @Std.IsLinearOrder.mk K _ (@Std.IsPartialOrder.mk K _ (@Std.IsPreorder.mk K _ ?_ ?_) ?_) ?_
+  · intro a; show cmp a a ≤ 0; rw [refl a]; exact Int.le_refl 0
+  · intro a b c h1 h2
+    show cmp a c ≤ 0
+    have h1' : cmp a b ≤ 0 := h1
+    have h2' : cmp b c ≤ 0 := h2
+    by_cases e1 : cmp a b = 0
+    · have := (h.eq a b).1 e1; subst this; exact h2'
+    · by_cases e2 : cmp b c = 0
+      · have := (h.eq b c).1 e2; subst this; exact h1'
+      · have := h.trans a b c (by omega) (by omega); omega
+  · intro a b h1 h2
+    have h1' : cmp a b ≤ 0 := h1
+    have h2' : cmp b a ≤ 0 := h2
+    apply (h.eq a b).1
+    have := h.antisymm b a
+    omega
+  · intro a b
+    show cmp a b ≤ 0 ∨ cmp b a ≤ 0
+    have := h.antisymm a b
+    omega
+
+theorem CmpLaws.lawfulLT {K : Type} {cmp : K → K → Int} (h : CmpLaws cmp) :
+    @Std.LawfulOrderLT K (ltOfCmp cmp) (leOfCmp cmp) := by
+  letI := leOfCmp cmp; letI := ltOfCmp cmp
+  refine ⟨fun a b => ?_⟩
+  show cmp a b < 0 ↔ cmp a b ≤ 0 ∧ ¬ cmp b a ≤ 0
+  have h1 := h.antisymm b a
+  have h2 := h.antisymm a b
+  have h3 := h.eq a b
+  have h4 := h.eq b a
+  constructor
+  · intro hlt; refine ⟨by omega, ?_⟩; omega
+  · rintro ⟨_, h6⟩; omega
+
+/-- **Any lawful compare is `Lawful` for the order it defines**, so every theorem of this file
+applies to every key type whose `compare` satisfies `CmpLaws` (instantiate the order instances with
+`leOfCmp cmp`, `ltOfCmp cmp`, `CmpLaws.linear`, `CmpLaws.lawfulLT`). -/
+theorem Lawful.ofCmp {K : Type} {cmp : K → K → Int} (h : CmpLaws cmp) :
+    @Lawful K (ltOfCmp cmp) cmp := by
+  letI := ltOfCmp cmp
+  refine ⟨fun a b => Iff.rfl, h.eq, fun a b => ?_⟩
+  show cmp a b > 0 ↔ cmp b a < 0
+  exact h.antisymm a b
+
+/-- example of the instantiation: `insert` for an arbitrary lawful compare, with the ordering of
+the enumeration expressed through `cmp` itself. -/
+theorem insert_refines_cmp {K V : Type} [DecidableEq K] [DecidableEq V] {cmp : K → K → Int}
+    (h : CmpLaws cmp) (t : Tree K V) (k : K) (v : V) (hb : Bal t)
+    (ho : (abs t).Pairwise (fun a b => cmp a.1 b.1 < 0)) :
+    ∃ t', insert cmp t k v = some t' ∧ Bal t' ∧ (abs t').Pairwise (fun a b => cmp a.1 b.1 < 0) ∧
+      ∀ p, p ∈ abs t' ↔ (p = (k, v) ∨ (p ∈ abs t ∧ p.1 ≠ k)) := by
+  letI := leOfCmp cmp; letI := ltOfCmp cmp
+  letI := h.linear; letI := h.lawfulLT
+  letI : DecidableLT K := fun a b => show Decidable (cmp a b < 0) from inferInstance
+  obtain ⟨t', e, i, m⟩ := insert_refines (Lawful.ofCmp h) t k v ⟨hb, ho⟩
+  exact ⟨t', e, i.1, i.2, m⟩
+
+/-- the whole-history theorem for an arbitrary lawful compare: from all-empty registers, every
+history of map operations never panics and every lookup afterwards equals the lookup in the
+specification run, where the specification's `split` uses the order `cmp · · < 0`. -/
+theorem ops_refine_cmp {K V : Type} [DecidableEq K] [DecidableEq V] {cmp : K → K → Int}
+    (h : CmpLaws cmp) (ops : List (MOp K V)) :
+    letI := ltOfCmp cmp
+    letI : DecidableLT K := fun a b => show Decidable (cmp a b < 0) from inferInstance
+    ∃ regs', runOps cmp (fun _ => (Tree.empty : Tree K V)) ops = some regs' ∧
+      ∀ i q, get cmp (regs' i) q = specOps (fun _ _ => none) ops i q := by
+  letI := leOfCmp cmp; letI := ltOfCmp cmp
+  letI := h.linear; letI := h.lawfulLT
+  letI : DecidableLT K := fun a b => show Decidable (cmp a b < 0) from inferInstance
+  exact ops_refine_get (Lawful.ofCmp h) ops
 
 /-- … and not beyond: with diameter 2³¹ the compare reports the larger key as smaller. -/
 theorem boxedCompare_overflow_counterexample :
@@ -350,9 +456,9 @@ theorem map_exists_refines (f : K → V → Bool) (t : Tree K V) :
 
 /-- **`remove` refines finite-map deletion**: never panics on an invariant-satisfying tree,
 re-establishes the invariant, and the result is `m \ {k}`. -/
-theorem remove_refines {cmp : K → K → Int} {rank : K → Int} (hc : Lawful cmp rank) (t : Tree K V)
-    (k : K) (hi : Inv rank t) :
-    ∃ t', remove cmp t k = some t' ∧ Inv rank t' ∧ ∀ p, p ∈ abs t' ↔ (p ∈ abs t ∧ p.1 ≠ k) := by
+theorem remove_refines {cmp : K → K → Int} (hc : Lawful cmp) (t : Tree K V)
+    (k : K) (hi : Inv t) :
+    ∃ t', remove cmp t k = some t' ∧ Inv t' ∧ ∀ p, p ∈ abs t' ↔ (p ∈ abs t ∧ p.1 ≠ k) := by
   obtain ⟨t', e, b, o, m, _⟩ := remove_spec hc t k hi.1 hi.2
   exact ⟨t', e, ⟨b, o⟩, m⟩
 
@@ -369,31 +475,31 @@ theorem concat_refines (t1 t2 : Tree K V) (h1 : Bal t1) (h2 : Bal t2) :
 
 /-- **`split`**: the enumeration is cut at `key` into the strictly smaller bindings, the binding of
 `key` (if present) and the strictly larger bindings; both parts are balanced. -/
-theorem split_refines {cmp : K → K → Int} {rank : K → Int} (hc : Lawful cmp rank) (t : Tree K V)
-    (key : K) (hi : Inv rank t) :
-    ∃ l pres r, split cmp t key = some (l, pres, r) ∧ Inv rank l ∧ Inv rank r ∧
+theorem split_refines {cmp : K → K → Int} (hc : Lawful cmp) (t : Tree K V)
+    (key : K) (hi : Inv t) :
+    ∃ l pres r, split cmp t key = some (l, pres, r) ∧ Inv l ∧ Inv r ∧
       abs t = abs l ++ midList key pres ++ abs r ∧
-      (∀ p ∈ abs l, rank p.1 < rank key) ∧ (∀ p ∈ abs r, rank key < rank p.1) := by
+      (∀ p ∈ abs l, p.1 < key) ∧ (∀ p ∈ abs r, key < p.1) := by
   obtain ⟨l, pres, r, e, b1, b2, a, g1, g2⟩ := split_spec hc t key hi.1 hi.2
   have ho := hi.2
   simp only [Ordered, a] at ho
-  have o1 : Ordered rank l := by
+  have o1 : Ordered l := by
     simp only [Ordered]; exact (List.pairwise_append.1 (List.pairwise_append.1 ho).1).1
-  have o2 : Ordered rank r := by
+  have o2 : Ordered r := by
     simp only [Ordered]; exact (List.pairwise_append.1 ho).2.1
   exact ⟨l, pres, r, e, ⟨b1, o1⟩, ⟨b2, o2⟩, a, g1, g2⟩
 
 /-- **`filter`** is `List.filter` on the enumeration (and keeps the invariant). -/
-theorem filter_refines (rank : K → Int) (f : K → V → Bool) (t : Tree K V) (hi : Inv rank t) :
-    ∃ t', filter f t = some t' ∧ Inv rank t' ∧ abs t' = (abs t).filter (fun p => f p.1 p.2) := by
+theorem filter_refines (f : K → V → Bool) (t : Tree K V) (hi : Inv t) :
+    ∃ t', filter f t = some t' ∧ Inv t' ∧ abs t' = (abs t).filter (fun p => f p.1 p.2) := by
   obtain ⟨t', e, b, a⟩ := filter_spec f t hi.1
   refine ⟨t', e, ⟨b, ?_⟩, a⟩
   simp only [Ordered, a]
   exact hi.2.sublist List.filter_sublist
 
 /-- **`partition`** is the pair of `List.filter`s. -/
-theorem partition_refines (rank : K → Int) (f : K → V → Bool) (t : Tree K V) (hi : Inv rank t) :
-    ∃ a b, partition f t = some (a, b) ∧ Inv rank a ∧ Inv rank b ∧
+theorem partition_refines (f : K → V → Bool) (t : Tree K V) (hi : Inv t) :
+    ∃ a b, partition f t = some (a, b) ∧ Inv a ∧ Inv b ∧
       abs a = (abs t).filter (fun p => f p.1 p.2) ∧ abs b = (abs t).filter (fun p => !f p.1 p.2) := by
   obtain ⟨a, b, e, b1, b2, a1, a2⟩ := partition_spec f t hi.1
   refine ⟨a, b, e, ⟨b1, ?_⟩, ⟨b2, ?_⟩, a1, a2⟩
@@ -410,7 +516,7 @@ witnesses are regression inputs in corpus/C18 now. -/
 namespace SamVerif.StdSet
 open SamVerif.StdMap (boxedCompare)
 
-variable {E : Type} [DecidableEq E]
+variable {E : Type} [DecidableEq E] [LE E] [LT E] [Std.IsLinearOrder E] [Std.LawfulOrderLT E] [DecidableLT E]
 
 theorem set_size_refines (t : STree E) : size t = ((abs t).length : Int) := size_refines t
 theorem set_elements_refines (t : STree E) : elements t = abs t := elements_refines t
@@ -424,18 +530,18 @@ theorem set_exists_refines (f : E → Bool) (t : STree E) : «exists» f t = (ab
   exists_refines f t
 
 /-- `contains` is membership. -/
-theorem set_contains_refines {cmp : E → E → Int} {rank : E → Int} (hc : Lawful cmp rank) (t : STree E)
-    (hi : Inv rank t) (x : E) : contains cmp t x = true ↔ x ∈ abs t := contains_spec hc t hi.2 x
+theorem set_contains_refines {cmp : E → E → Int} (hc : Lawful cmp) (t : STree E)
+    (hi : Inv t) (x : E) : contains cmp t x = true ↔ x ∈ abs t := contains_spec hc t hi.2 x
 
 /-- `insert` / `remove` never panic, keep the invariant, and are `s ∪ {x}` / `s \ {x}`. -/
-theorem set_insert_refines {cmp : E → E → Int} {rank : E → Int} (hc : Lawful cmp rank) (t : STree E)
-    (x : E) (hi : Inv rank t) :
-    ∃ t', insert cmp t x = some t' ∧ Inv rank t' ∧ ∀ p, p ∈ abs t' ↔ (p = x ∨ p ∈ abs t) :=
+theorem set_insert_refines {cmp : E → E → Int} (hc : Lawful cmp) (t : STree E)
+    (x : E) (hi : Inv t) :
+    ∃ t', insert cmp t x = some t' ∧ Inv t' ∧ ∀ p, p ∈ abs t' ↔ (p = x ∨ p ∈ abs t) :=
   inv_insert hc t x hi
 
-theorem set_remove_refines {cmp : E → E → Int} {rank : E → Int} (hc : Lawful cmp rank) (t : STree E)
-    (x : E) (hi : Inv rank t) :
-    ∃ t', remove cmp t x = some t' ∧ Inv rank t' ∧ ∀ p, p ∈ abs t' ↔ (p ∈ abs t ∧ p ≠ x) := by
+theorem set_remove_refines {cmp : E → E → Int} (hc : Lawful cmp) (t : STree E)
+    (x : E) (hi : Inv t) :
+    ∃ t', remove cmp t x = some t' ∧ Inv t' ∧ ∀ p, p ∈ abs t' ↔ (p ∈ abs t ∧ p ≠ x) := by
   obtain ⟨t', e, b, o, m, _⟩ := remove_spec hc t x hi.1 hi.2
   exact ⟨t', e, ⟨b, o⟩, m⟩
 
@@ -448,11 +554,11 @@ theorem set_join_refines (l r : STree E) (v : E) (hl : Bal l) (hr : Bal r) :
 theorem set_concat_refines (t1 t2 : STree E) (h1 : Bal t1) (h2 : Bal t2) :
     ∃ t, concat t1 t2 = some t ∧ Bal t ∧ abs t = abs t1 ++ abs t2 := concat_spec t1 t2 h1 h2
 
-theorem set_split_refines {cmp : E → E → Int} {rank : E → Int} (hc : Lawful cmp rank) (t : STree E)
-    (key : E) (hi : Inv rank t) :
-    ∃ l pres r, split cmp t key = some (l, pres, r) ∧ Inv rank l ∧ Inv rank r ∧
+theorem set_split_refines {cmp : E → E → Int} (hc : Lawful cmp) (t : STree E)
+    (key : E) (hi : Inv t) :
+    ∃ l pres r, split cmp t key = some (l, pres, r) ∧ Inv l ∧ Inv r ∧
       (∀ p, p ∈ abs t ↔ (p ∈ abs l ∨ (pres = true ∧ p = key) ∨ p ∈ abs r)) ∧
-      (∀ p ∈ abs l, rank p < rank key) ∧ (∀ p ∈ abs r, rank key < rank p) := split_inv hc t key hi
+      (∀ p ∈ abs l, p < key) ∧ (∀ p ∈ abs r, key < p) := split_inv hc t key hi
 
 theorem set_filter_refines (f : E → Bool) (t : STree E) (hb : Bal t) :
     ∃ t', filter f t = some t' ∧ Bal t' ∧ abs t' = (abs t).filter f := filter_spec f t hb
@@ -463,45 +569,45 @@ theorem set_partition_refines (f : E → Bool) (t : STree E) (hb : Bal t) :
 
 /-- **`union`** (total: fuel above the sum of the sizes always suffices), **`intersection`**,
 **`diff`**: no panic, invariant kept, and the result is the set union / intersection / difference. -/
-theorem set_union_refines {cmp : E → E → Int} {rank : E → Int} (hc : Lawful cmp rank) (fuel : Nat)
-    (a b : STree E) (ha : Inv rank a) (hb : Inv rank b) (hf : (abs a).length + (abs b).length < fuel) :
-    ∃ t, union cmp fuel a b = some (some t) ∧ Inv rank t ∧ ∀ p, p ∈ abs t ↔ (p ∈ abs a ∨ p ∈ abs b) :=
+theorem set_union_refines {cmp : E → E → Int} (hc : Lawful cmp) (fuel : Nat)
+    (a b : STree E) (ha : Inv a) (hb : Inv b) (hf : (abs a).length + (abs b).length < fuel) :
+    ∃ t, union cmp fuel a b = some (some t) ∧ Inv t ∧ ∀ p, p ∈ abs t ↔ (p ∈ abs a ∨ p ∈ abs b) :=
   union_spec hc fuel a b ha hb hf
 
-theorem set_intersection_refines {cmp : E → E → Int} {rank : E → Int} (hc : Lawful cmp rank)
-    (a b : STree E) (ha : Inv rank a) (hb : Inv rank b) :
-    ∃ t, intersection cmp a b = some t ∧ Inv rank t ∧ ∀ p, p ∈ abs t ↔ (p ∈ abs a ∧ p ∈ abs b) :=
+theorem set_intersection_refines {cmp : E → E → Int} (hc : Lawful cmp)
+    (a b : STree E) (ha : Inv a) (hb : Inv b) :
+    ∃ t, intersection cmp a b = some t ∧ Inv t ∧ ∀ p, p ∈ abs t ↔ (p ∈ abs a ∧ p ∈ abs b) :=
   intersection_spec hc a b ha hb
 
-theorem set_diff_refines {cmp : E → E → Int} {rank : E → Int} (hc : Lawful cmp rank)
-    (a b : STree E) (ha : Inv rank a) (hb : Inv rank b) :
-    ∃ t, diff cmp a b = some t ∧ Inv rank t ∧ ∀ p, p ∈ abs t ↔ (p ∈ abs a ∧ p ∉ abs b) :=
+theorem set_diff_refines {cmp : E → E → Int} (hc : Lawful cmp)
+    (a b : STree E) (ha : Inv a) (hb : Inv b) :
+    ∃ t, diff cmp a b = some t ∧ Inv t ∧ ∀ p, p ∈ abs t ↔ (p ∈ abs a ∧ p ∉ abs b) :=
   diff_spec hc a b ha hb
 
 /-- conversion from lists -/
-theorem set_fromList_refines {cmp : E → E → Int} {rank : E → Int} (hc : Lawful cmp rank) (xs : List E) :
-    ∃ t, fromList cmp xs .empty = some t ∧ Inv rank t ∧ ∀ p, p ∈ abs t ↔ p ∈ xs := by
+theorem set_fromList_refines {cmp : E → E → Int} (hc : Lawful cmp) (xs : List E) :
+    ∃ t, fromList cmp xs .empty = some t ∧ Inv t ∧ ∀ p, p ∈ abs t ↔ p ∈ xs := by
   obtain ⟨t, e, i, m⟩ := fromList_spec hc xs .empty ⟨by simp [Bal], by simp [Ordered, abs]⟩
   exact ⟨t, e, i, fun p => by rw [m]; simp [abs]⟩
 
 /-- **`subset`, total**: inclusion of the element sets (needs only the shape facts and the order,
 because `subset` builds unbalanced trees with `unsafeNode` internally). -/
-theorem set_subset_refines {cmp : E → E → Int} {rank : E → Int} (hc : Lawful cmp rank) (fuel : Nat)
-    (a b : STree E) (ha : Inv rank a) (hb : Inv rank b) (hf : (abs a).length + (abs b).length < fuel) :
+theorem set_subset_refines {cmp : E → E → Int} (hc : Lawful cmp) (fuel : Nat)
+    (a b : STree E) (ha : Inv a) (hb : Inv b) (hf : (abs a).length + (abs b).length < fuel) :
     ∃ r, subset cmp fuel a b = some r ∧ (r = true ↔ ∀ x ∈ abs a, x ∈ abs b) :=
   subset_spec hc fuel a b (shape_of_bal a ha.1) ha.2 (shape_of_bal b hb.1) hb.2 hf
 
 /-- **`Set.map`, total**: the image set (through `tryJoin`, i.e. `join` when the mapped pivot still
 separates the mapped subtrees, `union ∘ insert` otherwise). -/
-theorem set_map_refines {cmp : E → E → Int} {rank : E → Int} (hc : Lawful cmp rank)
+theorem set_map_refines {cmp : E → E → Int} (hc : Lawful cmp)
     (refEq : E → E → Bool) (hre : ∀ a b, refEq a b = true → a = b) (f : E → E) (fuel : Nat)
-    (t : STree E) (hi : Inv rank t) (hf : (abs t).length < fuel) :
-    ∃ t', map cmp refEq f fuel t = some (some t') ∧ Inv rank t' ∧ ∀ y, y ∈ abs t' ↔ ∃ x ∈ abs t, f x = y := by
+    (t : STree E) (hi : Inv t) (hf : (abs t).length < fuel) :
+    ∃ t', map cmp refEq f fuel t = some (some t') ∧ Inv t' ∧ ∀ y, y ∈ abs t' ↔ ∃ x ∈ abs t, f x = y := by
   obtain ⟨t', e, i, m, _⟩ := map_spec hc refEq hre f fuel t hi hf
   exact ⟨t', e, i, m⟩
 
-theorem set_disjoint_refines {cmp : E → E → Int} {rank : E → Int} (hc : Lawful cmp rank) (a b : STree E)
-    (ha : Inv rank a) (hb : Inv rank b) :
+theorem set_disjoint_refines {cmp : E → E → Int} (hc : Lawful cmp) (a b : STree E)
+    (ha : Inv a) (hb : Inv b) :
     ∃ r, disjoint cmp a b = some r ∧ (r = true ↔ ∀ x, ¬ (x ∈ abs a ∧ x ∈ abs b)) :=
   disjoint_refines hc a b ha hb
 
@@ -515,24 +621,23 @@ theorem set_compare_refines (cmp : E → E → Int) (f : E → E → Int) (a b :
 theorem set_equal_refines (cmp : E → E → Int) (f : E → E → Bool) (a b : STree E) :
     equal cmp f a b = eqList cmp f (abs a) (abs b) := equal_refines cmp f a b
 
-theorem set_equal_iff {cmp : E → E → Int} {rank : E → Int} (hc : Lawful cmp rank) (f : E → E → Bool)
+theorem set_equal_iff {cmp : E → E → Int} (hc : Lawful cmp) (f : E → E → Bool)
     (hf : ∀ x, f x x = true) (a b : STree E) : equal cmp f a b = true ↔ abs a = abs b := by
   rw [equal_refines]; exact eqList_iff hc f hf _ _
 
 /-- **conversions to and from lists**: `fromList (elements s)` enumerates exactly `s` again, and
 `elements (fromList xs)` is the strictly ascending duplicate-free list with the members of `xs`. -/
-theorem set_fromList_elements {cmp : E → E → Int} {rank : E → Int} (hc : Lawful cmp rank) (t : STree E)
-    (hi : Inv rank t) :
-    ∃ t', fromList cmp (elements t) .empty = some t' ∧ Inv rank t' ∧ elements t' = elements t := by
+theorem set_fromList_elements {cmp : E → E → Int} (hc : Lawful cmp) (t : STree E)
+    (hi : Inv t) :
+    ∃ t', fromList cmp (elements t) .empty = some t' ∧ Inv t' ∧ elements t' = elements t := by
   obtain ⟨t', e, i, m⟩ := set_fromList_refines hc (elements t)
   refine ⟨t', e, i, ?_⟩
   rw [elements_refines, elements_refines]
-  apply sorted_ext (rank := rank) (fun a b h => by
-    have h1 := hc.lt a b; have h2 := hc.gt a b; have h3 := hc.eq a b; apply h3.1; omega) _ _ i.2 hi.2
+  apply sorted_ext _ _ i.2 hi.2
   intro x; rw [m, elements_refines]
 
-theorem set_elements_fromList {cmp : E → E → Int} {rank : E → Int} (hc : Lawful cmp rank) (xs : List E) :
-    ∃ t, fromList cmp xs .empty = some t ∧ (elements t).Pairwise (fun a b => rank a < rank b) ∧
+theorem set_elements_fromList {cmp : E → E → Int} (hc : Lawful cmp) (xs : List E) :
+    ∃ t, fromList cmp xs .empty = some t ∧ (elements t).Pairwise (fun a b => a < b) ∧
       ∀ p, p ∈ elements t ↔ p ∈ xs := by
   obtain ⟨t, e, i, m⟩ := set_fromList_refines hc xs
   exact ⟨t, e, by rw [elements_refines]; exact i.2, fun p => by rw [elements_refines]; exact m p⟩
@@ -541,32 +646,107 @@ theorem set_elements_fromList {cmp : E → E → Int} {rank : E → Int} (hc : L
 `intersection`, `diff`, `filter`, `partition`, `split`, `fromList`, `map` over any number of set registers
 never panics (and `union` never runs out of its internally computed fuel), keeps the invariant and
 ends in states representing exactly the sets obtained by the same history on mathematical sets. -/
-theorem set_ops_refine {cmp : E → E → Int} {rank : E → Int} (hc : Lawful cmp rank)
+theorem set_ops_refine {cmp : E → E → Int} (hc : Lawful cmp)
     (ops : List (SOp E)) (regs : Nat → STree E) (ss : Nat → E → Prop)
-    (h : ∀ i, SRel rank (regs i) (ss i)) :
-    ∃ regs', runOps cmp regs ops = some regs' ∧ ∀ i, SRel rank (regs' i) (specOps rank ss ops i) :=
+    (h : ∀ i, SRel (regs i) (ss i)) :
+    ∃ regs', runOps cmp regs ops = some regs' ∧ ∀ i, SRel (regs' i) (specOps ss ops i) :=
   ops_refine_lemma hc ops regs ss h
 
 /-- the boxed compare is a lawful order for sets on every window of diameter < 2³¹ -/
 theorem set_boxedCompare_lawful (lo : Int) :
-    Lawful (fun (a b : SamVerif.StdMap.Window lo) => boxedCompare a.1 b.1) (fun a => a.1) := by
+    Lawful (fun (a b : SamVerif.StdMap.Window lo) => boxedCompare a.1 b.1) := by
   have h := SamVerif.StdMap.boxedCompare_lawful lo
   exact ⟨h.lt, h.eq, h.gt⟩
 
-example : SRel (fun (a : Int) => a) (STree.empty : STree Int) (fun _ => False) := srel_empty _
+example : SRel (STree.empty : STree Int) (fun _ => False) := srel_empty
 example : fromList boxedCompare [3, 1, 2, 5, 4] (.empty : STree Int) =
     some (.node 3 3 (.node 2 2 (.leaf 1) .empty) (.node 2 5 (.leaf 4) .empty)) := by decide
 
 end SamVerif.StdSet
+
+
+/-! ## `Option`, `Result`, tuples, boxed `Bool` (std/option.sam, result.sam, tuples.sam, boxed.sam) -/
+namespace SamVerif.StdAux
+variable {T R A B E : Type}
+
+namespace SOption
+theorem map_refines (f : T → R) (o : SOption T) : (map f o).toOption = o.toOption.map f := by
+  cases o <;> rfl
+theorem filter_refines (f : T → Bool) (o : SOption T) : (filter f o).toOption = o.toOption.filter f := by
+  cases o with
+  | none => rfl
+  | some v => by_cases c : f v = true <;> simp [filter, toOption, Option.filter, c]
+theorem bind_refines (f : T → SOption R) (o : SOption T) :
+    (bind f o).toOption = o.toOption.bind (fun x => (f x).toOption) := by cases o <;> rfl
+theorem valueMap_refines (d : R) (f : T → R) (o : SOption T) :
+    valueMap d f o = (o.toOption.map f).getD d := by cases o <;> rfl
+theorem isSome_refines (o : SOption T) : isSome o = o.toOption.isSome := by cases o <;> rfl
+theorem isNone_refines (o : SOption T) : isNone o = o.toOption.isNone := by cases o <;> rfl
+theorem both_refines (a : SOption A) (b : SOption B) :
+    (both a b).toOption = a.toOption.bind (fun x => b.toOption.map (fun y => ⟨x, y⟩)) := by
+  cases a <;> cases b <;> rfl
+theorem iter_refines {σ : Type} (f : T → σ → σ) (o : SOption T) (s : σ) :
+    iter f o s = (o.toOption.map (fun v => f v s)).getD s := by cases o <;> rfl
+/-- `unwrap` / `expect` panic exactly on `None` -/
+theorem unwrap_refines (o : SOption T) : unwrap o = o.toOption := by cases o <;> rfl
+theorem tryUnwrap_refines (o : SOption T) : (tryUnwrap o).toOption = o.toOption := rfl
+end SOption
+
+namespace SResult
+theorem map_refines (f : T → R) (r : SResult T E) : (map f r).toExcept = r.toExcept.map f := by
+  cases r <;> rfl
+theorem mapError_refines (f : E → R) (r : SResult T E) :
+    (mapError f r).toExcept = r.toExcept.mapError f := by cases r <;> rfl
+theorem isOk_refines (r : SResult T E) : isOk r = r.toExcept.isOk := by cases r <;> rfl
+theorem isError_refines (r : SResult T E) : isError r = !r.toExcept.isOk := by cases r <;> rfl
+theorem ok_refines (r : SResult T E) : (ok? r).toOption = r.toExcept.toOption := by cases r <;> rfl
+theorem tryUnwrap_refines (r : SResult T E) : (tryUnwrap r).toOption = r.toExcept.toOption := by
+  cases r <;> rfl
+theorem ignore_refines (r : SResult T E) : (ignore r).toExcept = r.toExcept.map (fun _ => ()) := by
+  cases r <;> rfl
+theorem fromOption_refines (o : SOption T) (e : E) :
+    (fromOption o e).toExcept = (match o.toOption with
+      | Option.some v => Except.ok v
+      | Option.none => Except.error e) := by cases o <;> rfl
+theorem unwrap_refines (r : SResult T E) : unwrap r = r.toExcept.toOption := by cases r <;> rfl
+theorem iter_refines {σ : Type} (f : T → σ → σ) (r : SResult T E) (s : σ) :
+    iter f r s = (r.toExcept.toOption.map (fun v => f v s)).getD s := by cases r <;> rfl
+theorem iterError_refines {σ : Type} (f : E → σ → σ) (r : SResult T E) (s : σ) :
+    iterError f r s = (match r.toExcept with
+      | .ok _ => s
+      | .error e => f e s) := by cases r <;> rfl
+end SResult
+
+/-- tuples: `first` / `second` are the projections -/
+theorem pair_first_second (p : SPair A B) : (p.first, p.second) = (p.e0, p.e1) := rfl
+theorem triple_first_second {C : Type} (p : STriple A B C) : (p.first, p.second) = (p.e0, p.e1) := rfl
+
+/-- the boxed `Bool` compare is a lawful total order (`false < true`), with no range restriction -/
+theorem boolCompare_laws : SamVerif.StdMap.CmpLaws boolCompare := by
+  refine ⟨?_, ?_, ?_⟩
+  · intro a b; cases a <;> cases b <;> simp [boolCompare, boolIntValue]
+  · intro a b; cases a <;> cases b <;> simp [boolCompare, boolIntValue]
+  · intro a b c; cases a <;> cases b <;> cases c <;> simp [boolCompare, boolIntValue]
+
+end SamVerif.StdAux
+
+namespace SamVerif.StdList
+/-- `List.iter` calls the callback front to back -/
+theorem iter_refines {T σ : Type} (f : T → σ → σ) (l : SList T) (s : σ) :
+    iter f l s = (toList l).foldl (fun s v => f v s) s := by
+  induction l generalizing s with
+  | nil => rfl
+  | cons v rest ih => simp [iter, toList, ih]
+end SamVerif.StdList
 
 /-! ## Non-vacuity: the hypotheses of the theorems above are satisfiable and the side conditions
 of the `_partial` theorems hold on real trees. -/
 namespace SamVerif.StdMap
 /-- a lawful compare exists (window `[-2³⁰, 2³⁰)`), the empty tree satisfies `Inv`, and a concrete
 history from `empty` yields a non-trivial tree with a rotation (height 3, 4 keys). -/
-example : Lawful (fun (a b : Window (-1073741824)) => boxedCompare a.1 b.1) (fun a => a.1) :=
+example : Lawful (fun (a b : Window (-1073741824)) => boxedCompare a.1 b.1) :=
   boxedCompare_lawful _
-example : Inv (fun (a : Int) => a) (Tree.empty : Tree Int Int) := inv_empty _
+example : Inv (Tree.empty : Tree Int Int) := inv_empty
 example : runIns boxedCompare (.empty : Tree Int Int) [(1, 10), (2, 20), (3, 30), (4, 40)] =
     some (.node 3 2 20 (.leaf 1 10) (.node 2 4 40 (.leaf 3 30) .empty)) := by decide
 example : Bal (.node 3 2 20 (.leaf 1 10) (.node 2 4 40 (.leaf 3 30) .empty) : Tree Int Int) := by
